@@ -78,8 +78,8 @@ def generate(rng, tier, index):
         for ln in uni["res"][top]:
             if ln["role"] == "include":
                 ln = dict(ln)
-                ln["ref"] = ln["target"]
-                ln["t"] = "%include " + ln["target"]
+                ln["ref"] = ln["target"].replace("$", "$$")
+                ln["t"] = "%include " + ln["ref"]
             new.append(ln)
         uni["res"][top] = new
     override = None
